@@ -58,6 +58,7 @@ def field_flow(F, fn, gcfields):
         return out
 
     traced = set()
+    partial = {}
     # whole-self uses: `self.trace_inner()`-style delegation is not modelled; recorded by caller
     changed = True
     rounds = 0
@@ -84,6 +85,11 @@ def field_flow(F, fn, gcfields):
                     p = op_place(a)
                     if p:
                         fs |= fields_of_place(p)
+                if fs and lastseg(t["f"]) in PARTIAL_VIEWS and bi not in traceish:
+                    # a partial view of the field (first slice, first element, a prefix..): what is traced
+                    # through it does not cover the field
+                    partial.setdefault(lastseg(t["f"]), set()).update(fs)
+                    fs = set()
                 if fs:
                     if bi in traceish:
                         if not fs <= traced:
@@ -94,7 +100,14 @@ def field_flow(F, fn, gcfields):
                     if not fs <= cur:
                         cur |= fs
                         changed = True
+    field_flow.last_partial = partial
     return traced
+
+
+# adaptors that hand out only part of a collection: tracing through them does not trace the field
+PARTIAL_VIEWS = {"as_slices", "as_mut_slices", "split_at", "split_at_mut", "split_first", "split_last", "first", "last",
+                 "get", "get_mut", "get_unchecked", "take", "skip", "step_by", "nth", "filter", "take_while", "skip_while",
+                 "chunks", "windows", "peek", "front", "back", "find", "position", "min", "max", "next_back"}
 
 
 def closures_touching_self(F, fn):
